@@ -168,6 +168,30 @@ def nested_error_case(rng):
     return g, inputs
 
 
+def reparse_inputs(rng, g, ref, n, sens=None, maxlen=24):
+    """X J Y: a prefix X of a short sentence, at most two junk tokens J, a whole short sentence Y (sometimes two).
+    The recovery throws X away or patches it and rewrites the parser list; Y is then parsed at list positions that
+    were in use before, by other sets -- whatever the parser remembered about those positions is stale."""
+    terms = g.term_names()
+    if sens is None:
+        sens = [w for w in gen.inputs_for(rng, g, 3, 10, 8) if w and ref.sentence(w)]
+    sens = [w for w in sens if w and len(w) <= 8]
+    if not sens or not terms:
+        return []
+    out, seen = [], set()
+    for _ in range(4 * n):
+        s1, s2 = rng.choice(sens), rng.choice(sens)
+        w = s1[:rng.randrange(1, len(s1) + 1)] + [rng.choice(terms) for _ in range(rng.choice([0, 0, 1, 1, 2]))] + s2
+        if rng.random() < 0.25:
+            w = w + rng.choice(sens)
+        if tuple(w) not in seen and len(w) <= maxlen and not ref.sentence(w):
+            seen.add(tuple(w))
+            out.append(w)
+            if len(out) >= n:
+                break
+    return out
+
+
 def rec_inputs(rng, g, ref, n_inputs, maxlen):
     terms = g.term_names()
     ins = gen.inputs_for(rng, g, 3, 12, maxlen)
@@ -176,6 +200,9 @@ def rec_inputs(rng, g, ref, n_inputs, maxlen):
     rng.shuffle(non)
     rng.shuffle(sen)
     out = non[:max(1, n_inputs - 2)] + sen[:2]
+    if any(ERR in r.rhs for r in g.rules):
+        have = set(tuple(w) for w in out)
+        out += [w for w in reparse_inputs(rng, g, ref, max(4, n_inputs // 2), sens=sen, maxlen=16) if tuple(w) not in have]
     if getattr(g, "input_gen", None) is not None and terms:
         # long sentences made of repeated fragments, damaged only at their end: whatever the parser remembered
         # along the valid prefix must not move the error forward
